@@ -30,7 +30,7 @@ Next == \/ \E owned \in BOOLEAN, cap \in Caps, arm \in Arms : WSCreate(owned, ca
         \/ WSAbort
 Spec == Init /\ [][Next]_wsvars
 
-TypeInv == TypeOK /\ (sink.open => SkTypeOK) /\ SkMonotone /\ SkLossIsReported
+TypeInv == TypeOK /\ (sink.open => SkTypeOK) /\ SkMonotone /\ SkLossIsReported /\ SkNoSilentLoss
 InvAck == WSInvAck
 InvReported == WSInvReported
 InvAbort == WSInvAbort
